@@ -45,7 +45,10 @@ fn gen_keys(rng: &mut Rng) -> KeyCfg {
     let k1 = signing_key_from_seed(rng);
     let k2 = signing_key_from_seed(rng);
     let k3 = signing_key_from_seed(rng);
-    let (id1, id2, id3) = (1 + rng.below(1000), 2000 + rng.below(1000), 5000 + rng.below(1000));
+    // key ids carry no order: any of the three may be the smallest / largest
+    let mut ids = [1 + rng.below(1000), 2000 + rng.below(1000), 5000 + rng.below(1000)];
+    rng.shuffle(&mut ids);
+    let (id1, id2, id3) = (ids[0], ids[1], ids[2]);
     let pk = |id: u64, k: &p256::ecdsa::SigningKey| PublicKeyAndId { id, key: VerifyingKey::from(k) };
     let sk = |id: u64, k: &p256::ecdsa::SigningKey| PrivateKeyAndId { id, key: k.clone() };
     match rng.below(4) {
@@ -248,7 +251,20 @@ pub fn run(args: &Args, r: &mut Report) {
             let is_uc = e % 2 == 0 || rng.bool();
             let lib_params = params.to_lib();
             let mut b = RequestBuilder::new(&config, &lib_params);
-            for a in &apps {
+            // an event report may name any non-empty subset of the configured apps (only those that
+            // were offered an update report events); update checks always name all of them
+            let subset: Vec<bool> = if is_uc { vec![true; apps.len()] } else {
+                let mut v: Vec<bool> = apps.iter().map(|_| rng.bool()).collect();
+                if !v.iter().any(|x| *x) {
+                    let k = rng.usize(v.len());
+                    v[k] = true;
+                }
+                v
+            };
+            for (a, take) in apps.iter().zip(subset.iter()) {
+                if !*take {
+                    continue;
+                }
                 let app = a.to_app();
                 b = if is_uc { b.add_update_check(&app).add_ping(&app) } else { b.add_event(&app, Event::success(EventType::UpdateDownloadStarted)) };
             }
@@ -286,11 +302,16 @@ pub fn run(args: &Args, r: &mut Report) {
                 let body: HashMap<String, Value> = cfg2
                     .iter()
                     .map(|(k, v)| {
-                        (
-                            k.clone(),
-                            json!({"response": kind_name(v.response), "check_assertion": if params.disable { "UpdatesDisabled" } else { "UpdatesEnabled" },
-                               "version": v.version, "cohort_assertion": v.cohort_assertion, "codebase": v.codebase, "package_name": v.package_name}),
-                        )
+                        let mut o = json!({"response": kind_name(v.response), "check_assertion": if params.disable { "UpdatesDisabled" } else { "UpdatesEnabled" },
+                               "codebase": v.codebase, "package_name": v.package_name});
+                        // optional members: null or simply absent
+                        if v.version.is_some() || rng.bool() {
+                            o["version"] = json!(v.version);
+                        }
+                        if v.cohort_assertion.is_some() || rng.bool() {
+                            o["cohort_assertion"] = json!(v.cohort_assertion);
+                        }
+                        (k.clone(), o)
                     })
                     .collect();
                 let req = hyper::Request::post("/set_responses_by_appid").body(hyper::Body::from(serde_json::to_vec(&body).unwrap())).unwrap();
@@ -371,17 +392,24 @@ pub fn run(args: &Args, r: &mut Report) {
         let keys = gen_keys(&mut rng);
         let cup = etag_override || rng.bool();
         let (url, url_class) = gen_service_url(&mut rng);
-        let (cfg, _, _) = cfg_for(&mut rng, &apps, false, Some(kind));
+        let (mut cfg, _, _) = cfg_for(&mut rng, &apps, false, Some(kind));
+        // two apps with different decisions: the event reports then name only the updated app
+        let mixed = n_apps == 2 && kind == OmahaResponse::Update && j % 2 == 0 && !etag_override;
+        if mixed {
+            if let Some(c) = cfg.get_mut(&apps[1].id) {
+                c.response = OmahaResponse::NoUpdate;
+            }
+        }
         let mut sb = OmahaServerBuilder::default().responses_by_appid(cfg.clone()).private_keys(keys.server.clone());
         if etag_override {
             sb = sb.etag_override(Some("deadbeef:cafe".to_string()));
         }
         let server = Arc::new(TMutex::new(sb.build().unwrap()));
         let mut script = Script::default();
-        script.checks.push(CheckScript { results: vec![InstRes::Installed; n_apps], ..Default::default() });
+        script.checks.push(CheckScript { results: vec![InstRes::Installed; if mixed { 1 } else { n_apps }], ..Default::default() });
         let setup = Setup { service_url: url.clone(), apps: apps.clone(), cup, start_mode: rng.bool(), ..Default::default() };
         let mut case = FlowCase::new(setup, script);
-        case.shape = vec!["sm".into(), kind_name(kind).into(), url_class.into(), keys.label.into(), format!("cup={} override={}", cup, etag_override)];
+        case.shape = vec!["sm".into(), if mixed { "mixed".into() } else { kind_name(kind).to_string() }, url_class.into(), keys.label.into(), format!("cup={} override={}", cup, etag_override)];
         let w = make_world(&case);
         {
             let mut g = lock(&w);
@@ -434,7 +462,12 @@ pub fn run(args: &Args, r: &mut Report) {
                         _ => false,
                     })
                 };
-                plan_ok && matches!(result, Some(Ok(v)) if v.iter().all(|a| a.action == "Updated")) && c.reports.len() == 3 && c.reports.iter().all(|q| matches!(&q.resp, Some((_, Delivered::Reply { status: 200, .. }))))
+                let actions_ok = match result {
+                    Some(Ok(v)) if mixed => v.iter().all(|a| (a.app_id == apps[1].id && a.action == "NoUpdate") || (a.app_id != apps[1].id && a.action == "Updated")),
+                    Some(Ok(v)) => v.iter().all(|a| a.action == "Updated"),
+                    _ => false,
+                };
+                (plan_ok || mixed) && actions_ok && c.reports.len() == 3 && c.reports.iter().all(|q| matches!(&q.resp, Some((_, Delivered::Reply { status: 200, .. }))))
             }
             _ => matches!(result, Some(Err(e)) if e.contains("ResponseParser")) && c.reports.len() == 1,
         };
